@@ -2741,7 +2741,7 @@ Section CreateStep.
                   (negb safe) true true dur 1 res.
   Let g' := create_step g k creator det need safe stored dur res.
   Hypothesis Hfresh : ~ In k (map s_key (g_steps g)).
-  Hypothesis Hnodeps : forall d, In d (g_deps g) -> d_src d <> k /\ d_snk d <> k.
+  Hypothesis Hnodeps : forall d, In d (g_deps g) -> d_snk d <> k.
   Hypothesis Hnochild : forall s, In s (g_steps g) -> s_creator s <> Some k.
 
   Lemma cs_find_old x : x <> k -> find_step g' x = find_step g x.
@@ -3556,7 +3556,7 @@ Section SubtreeFlip.
 
   (* a file of S is produced only by steps of S (outputs are created by their producer) *)
   Hypothesis Hout : forall d f, In d (g_deps g) -> find_file g (d_snk d) = Some f ->
-    mem_N (f_key f) S = true -> mem_N (d_src d) S = true.
+    mem_N (f_key f) S = true -> mem_N (d_src d) S = true \/ f_detached f = b.
 
   Lemma sf_find_file x : find_file g' x = option_map H (find_file g x).
   Proof. unfold find_file. rewrite (dr_files R). apply find_file_mapf. apply (dr_fkey R). Qed.
@@ -3581,11 +3581,12 @@ Section SubtreeFlip.
     unfold local_need, elev. rewrite (dr_key R), (dr_need R), Ek, sf_outputs.
     assert (Hreg : forall f, In f (outputs g x) -> regular_output (H f) = regular_output f /\ f_label (H f) = f_label f).
     { intros f Hf. split; [|apply (dr_flabel R)]. rewrite !regular_output_meaning, (dr_fstate R), (dr_fdet R).
-      unfold phi. destruct (mem_N (f_key f) S) eqn:Em; [|reflexivity]. exfalso.
+      unfold phi. destruct (mem_N (f_key f) S) eqn:Em; [|reflexivity].
       unfold outputs in Hf. apply in_flat_map in Hf. destruct Hf as [d [Hd Hf]].
       destruct (d_src d =? x) eqn:Es; [|destruct Hf]. apply N.eqb_eq in Es.
       destruct (find_file g (d_snk d)) as [f0|] eqn:Eff; [|destruct Hf]. destruct Hf as [<-|[]].
-      rewrite (Hout d f0 Hd Eff Em) in Hx || (rewrite <- Es in Hx; rewrite (Hout d f0 Hd Eff Em) in Hx). discriminate. }
+      destruct (Hout d f0 Hd Eff Em) as [Ho|Ho]; [|rewrite Ho; reflexivity].
+      exfalso. rewrite Es in Ho. rewrite Ho in Hx. discriminate. }
     assert (He : forall (p q : file -> bool) l, (forall f, In f l -> p (H f) = q f) -> existsb p (map H l) = existsb q l).
     { intros p q l. induction l as [|a l IH]; intros Hl; [reflexivity|]. cbn [map existsb].
       rewrite (Hl a (or_introl eq_refl)), IH; [reflexivity | intros; apply Hl; right; assumption]. }
@@ -3771,12 +3772,12 @@ Theorem reattach_step_need_sound g k c cdet :
 Proof.
   intros Hwf Hout Hdet HF. destruct (reattach_drel g k c cdet) as [F [H [O R]]].
   destruct cdet.
-  - apply (detach_like_need_sound g _ k (k :: below g k) true F H O R Hout eq_refl); [|exact HF].
+  - apply (detach_like_need_sound g _ k (k :: below g k) true F H O R (fun d f a b c => or_introl (Hout d f a b c)) eq_refl); [|exact HF].
     intros p y Hp Hdp Hmp Hyc Hmy. exfalso.
     apply cons_keys_spec in Hyc. destruct Hyc as [d1 [d2 [sy [_ [_ [_ [_ [Ef [Ed ->]]]]]]]]].
     apply find_step_some in Ef. destruct Ef as [Hsy _].
     rewrite (Hdet eq_refl sy Hsy Hmy) in Ed. discriminate.
-  - apply (attach_like_need_sound g _ k (k :: below g k) false F H O R Hout eq_refl); [|exact HF].
+  - apply (attach_like_need_sound g _ k (k :: below g k) false F H O R (fun d f a b c => or_introl (Hout d f a b c)) eq_refl); [|exact HF].
     intros r' Hr' Hm.
     assert (Hex : exists r, In r (g_steps g) /\ s_key r = s_key r').
     { pose proof Hr' as Hr''. rewrite (dr_steps R) in Hr''. apply in_map_iff in Hr''.
@@ -3859,7 +3860,7 @@ Proof.
     destruct (s_detached s0); [|auto]. rewrite mem_single, mem_cons. intros ->. reflexivity. }
   apply (detach_like_need_sound g _ k (detach_set g k) true F H O R); [| reflexivity | | exact HF].
   - (* outputs *)
-    intros d f Hd Hf Hm. pose proof (Hsub _ Hm) as Hm'.
+    intros d f Hd Hf Hm. left. pose proof (Hsub _ Hm) as Hm'.
     revert Hm. unfold detach_set. rewrite E0. destruct (s_creator s0); [|discriminate].
     destruct (s_detached s0); [|intros _; apply (Hout d f Hd Hf Hm')].
     intros Hm. exfalso. rewrite mem_single in Hm. apply N.eqb_eq in Hm.
@@ -3970,22 +3971,39 @@ Qed.
 Definition no_step_in (g : graph) (S : list N) : Prop :=
   forall s, In s (g_steps g) -> mem_N (s_key s) S = false.
 
+(* general form: no step row among the nodes that become detached; a file among them that still has
+   a producer edge is detached already (its flag does not change) *)
+Theorem detach_file_need_sound_gen g k :
+  no_step_in g (detach_file_set g k) ->
+  (forall d f, In d (g_deps g) -> find_file g (d_snk d) = Some f ->
+     mem_N (f_key f) (detach_file_set g k) = true -> f_detached f = true) ->
+  FlagInv_need g -> FlagInv_need (detach_file g k).
+Proof.
+  intros Hns Hout HF. destruct (detach_file_drel g k) as [F [H [O R]]].
+  apply (detach_like_need_sound g _ k (detach_file_set g k) true F H O R); [| reflexivity | | exact HF].
+  - intros d f Hd Hf Hm. right. apply (Hout d f Hd Hf Hm).
+  - intros p y Hp _ _ Hyc Hmy. exfalso.
+    apply cons_keys_spec in Hyc. destruct Hyc as [d1 [d2 [sy [_ [_ [_ [_ [Ef [_ ->]]]]]]]]].
+    apply find_step_some in Ef. destruct Ef as [Hsy _].
+    rewrite (Hns sy Hsy) in Hmy. discriminate.
+Qed.
+
+Lemma detach_file_set_sub g k x : mem_N x (detach_file_set g k) = true -> mem_N x (k :: below g k) = true.
+Proof.
+  unfold detach_file_set. destruct (find_file g k) as [f0|]; [|discriminate].
+  destruct (f_creator f0); [|discriminate]. destruct (f_detached f0); [|auto].
+  rewrite mem_single, mem_cons. intros ->. reflexivity.
+Qed.
+
 Theorem detach_file_need_sound g k :
   no_step_in g (k :: below g k) ->
   (forall d f, In d (g_deps g) -> find_file g (d_snk d) = Some f -> mem_N (f_key f) (k :: below g k) = false) ->
   FlagInv_need g -> FlagInv_need (detach_file g k).
 Proof.
-  intros Hns Hout HF. destruct (detach_file_drel g k) as [F [H [O R]]].
-  assert (Hsub : forall x, mem_N x (detach_file_set g k) = true -> mem_N x (k :: below g k) = true).
-  { intros x. unfold detach_file_set. destruct (find_file g k) as [f0|]; [|discriminate].
-    destruct (f_creator f0); [|discriminate]. destruct (f_detached f0); [|auto].
-    rewrite mem_single, mem_cons. intros ->. reflexivity. }
-  apply (detach_like_need_sound g _ k (detach_file_set g k) true F H O R); [| reflexivity | | exact HF].
-  - intros d f Hd Hf Hm. exfalso. pose proof (Hsub _ Hm) as Hx. rewrite (Hout d f Hd Hf) in Hx. discriminate.
-  - intros p y Hp _ _ Hyc Hmy. exfalso.
-    apply cons_keys_spec in Hyc. destruct Hyc as [d1 [d2 [sy [_ [_ [_ [_ [Ef [_ ->]]]]]]]]].
-    apply find_step_some in Ef. destruct Ef as [Hsy _].
-    pose proof (Hsub _ Hmy) as Hx. rewrite (Hns sy Hsy) in Hx. discriminate.
+  intros Hns Hout. apply detach_file_need_sound_gen.
+  - intros s Hs. destruct (mem_N (s_key s) (detach_file_set g k)) eqn:E; [|reflexivity].
+    apply detach_file_set_sub in E. rewrite (Hns s Hs) in E. discriminate.
+  - intros d f Hd Hf Hm. apply detach_file_set_sub in Hm. rewrite (Hout d f Hd Hf) in Hm. discriminate.
 Qed.
 
 Lemma place_rel_with_files k g l : place_rel k g (with_files g l).
@@ -4193,125 +4211,3 @@ Proof. eapply same_keys_map; [reflexivity|]. intros s. cbv beta. destruct (s_key
 Lemma same_keys_inc_defer g k : same_keys g (inc_defer g k).
 Proof. eapply same_keys_map; [reflexivity|]. intros s. cbv beta. destruct (s_key s =? k); reflexivity. Qed.
 
-Definition prim_ok (g : graph) (p : prim) : Prop :=
-  match p with
-  | PSetState _ _ _ | PHold _ | PRelease _ | PInsDep _ | PDelDep _ | PSetHash _ _ | PIncDefer _ => True
-  | PSetFileState k st _ =>
-      forall f, In f (g_files g) -> f_key f = k -> (f_state f =? FS_VOLATILE) = (st =? FS_VOLATILE)
-  | PDetach k =>
-      (forall f, In f (g_files g) -> f_key f <> k) /\
-      (forall d f, In d (g_deps g) -> find_file g (d_snk d) = Some f ->
-         mem_N (f_key f) (k :: below g k) = true -> mem_N (d_src d) (k :: below g k) = true)
-  | PDetachFile k =>
-      no_step_in g (k :: below g k) /\
-      (forall d f, In d (g_deps g) -> find_file g (d_snk d) = Some f -> mem_N (f_key f) (k :: below g k) = false)
-  | PReattach k _ cdet =>
-      (forall d f, In d (g_deps g) -> find_file g (d_snk d) = Some f ->
-         mem_N (f_key f) (k :: below g k) = true -> mem_N (d_src d) (k :: below g k) = true) /\
-      (cdet = true -> forall s, In s (g_steps g) -> mem_N (s_key s) (k :: below g k) = true -> s_detached s = true)
-  | PCreate k creator det need safe stored dur res =>
-      ~ In k (map s_key (g_steps g)) /\
-      (forall d, In d (g_deps g) -> d_src d <> k /\ d_snk d <> k) /\
-      (forall s, In s (g_steps g) -> s_creator s <> Some k) /\
-      (exists rank, CreatorRank g rank) /\
-      (safe = true ->
-       creator_step (create_step g k creator det need safe stored dur res)
-         (mkStep k init_state need false 0 0 det creator safe safe need false stored stored
-                 (negb safe) true true dur 1 res) = None)
-  end.
-
-Fixpoint run_ok (g : graph) (l : list prim) : Prop :=
-  match l with
-  | [] => True
-  | p :: r => prim_ok g p /\ forall g1, apply_prim g p = Some g1 -> run_ok g1 r
-  end.
-
-Lemma apply_prim_sound g p g1 :
-  WF g -> FlagInv g -> prim_ok g p -> apply_prim g p = Some g1 -> WF g1 /\ FlagInv g1.
-Proof.
-  intros Hwf HF Hok E. destruct p; cbn [apply_prim prim_ok] in *; try (injection E as <-).
-  - split; [eapply same_keys_WF; [apply same_keys_set_state | exact Hwf] | apply set_step_state_sound_repo; exact HF].
-  - split; [eapply same_keys_WF; [apply same_keys_hold | exact Hwf] | apply hold_step_sound; assumption].
-  - split; [eapply same_keys_WF; [eapply same_keys_release; exact E | exact Hwf] | eapply release_step_sound; eassumption].
-  - split; [eapply same_keys_WF; [apply same_keys_ins_dep | exact Hwf] | apply ins_dep_sound_repo; assumption].
-  - split; [eapply same_keys_WF; [apply same_keys_del_dep | exact Hwf] | apply del_dep_sound_full_repo; assumption].
-  - split; [eapply same_keys_WF; [apply same_keys_set_file_state | exact Hwf]|].
-    destruct HF as [HFs [HFn HFr]].
-    destruct (set_file_state_sound_repo g k st h (conj HFs HFr)) as [H1 H2].
-    split; [exact H1|]. split; [apply set_file_state_need_sound; assumption | exact H2].
-  - destruct Hok as [H1 H2].
-    split; [eapply same_keys_WF; [eapply same_keys_place_rel; apply detach_step_place_rel | exact Hwf]
-           | apply detach_step_sound_repo; assumption].
-  - destruct Hok as [H1 H2].
-    split; [eapply same_keys_WF; [eapply same_keys_place_rel; apply detach_file_place_rel | exact Hwf]
-           | apply detach_file_sound_repo; assumption].
-  - destruct Hok as [H1 H2].
-    split; [eapply same_keys_WF; [eapply same_keys_place_rel; apply reattach_step_place_rel | exact Hwf]
-           | apply reattach_step_sound_repo; assumption].
-  - split; [eapply same_keys_WF; [apply same_keys_set_step_hash | exact Hwf] | apply set_step_hash_sound; exact HF].
-  - split; [eapply same_keys_WF; [apply same_keys_inc_defer | exact Hwf] | apply inc_defer_sound; exact HF].
-  - destruct Hok as [H1 [H2 [H3 [[rank HR] H4]]]]. split.
-    + unfold WF, create_step. cbn [g_steps with_steps]. rewrite map_app. cbn [map s_key].
-      apply NoDup_app_fresh; assumption.
-    + destruct HF as [HFs [HFn HFr]]. split; [|split].
-      * eapply create_step_safe_sound; eassumption.
-      * apply create_step_need_sound; assumption.
-      * apply create_step_ready_sound; assumption.
-Qed.
-
-(* Any sequence of the modelled primitives, each applied where its side condition holds, keeps the
-   flag invariant: a composite operation that decomposes into them cannot leave a stale cached
-   value unflagged. *)
-Theorem prims_preserve_FlagInv l : forall g g',
-  WF g -> FlagInv g -> run_ok g l -> run_prims g l = Some g' -> WF g' /\ FlagInv g'.
-Proof.
-  induction l as [|p r IH]; intros g g' Hwf HF Hok E.
-  - cbn in E. injection E as <-. split; assumption.
-  - cbn [run_prims] in E. destruct (apply_prim g p) as [g1|] eqn:Ep; [|discriminate].
-    destruct Hok as [Hp Hr].
-    destruct (apply_prim_sound g p g1 Hwf HF Hp Ep) as [Hwf1 HF1].
-    apply (IH g1 g' Hwf1 HF1 (Hr g1 Ep) E).
-Qed.
-
-(* reflection of the decidable side conditions *)
-Lemma outputs_owned_refl g S : outputs_owned_b g S = true ->
-  forall d f, In d (g_deps g) -> find_file g (d_snk d) = Some f -> mem_N (f_key f) S = true -> mem_N (d_src d) S = true.
-Proof.
-  unfold outputs_owned_b. rewrite forallb_forall. intros H d f Hd Hf Hm.
-  specialize (H d Hd). rewrite Hf, Hm in H. exact H.
-Qed.
-Lemma no_edge_into_refl g S : no_edge_into_b g S = true ->
-  forall d f, In d (g_deps g) -> find_file g (d_snk d) = Some f -> mem_N (f_key f) S = false.
-Proof.
-  unfold no_edge_into_b. rewrite forallb_forall. intros H d f Hd Hf.
-  specialize (H d Hd). rewrite Hf in H. apply negb_true_iff in H. exact H.
-Qed.
-
-Lemma prim_ok_refl g p : prim_ok_b g p = true -> prim_ok g p.
-Proof.
-  destruct p; cbn [prim_ok_b prim_ok]; try (intros _; exact I); try discriminate.
-  - rewrite forallb_forall. intros H f Hf Ek. specialize (H f Hf).
-    apply N.eqb_eq in Ek. rewrite Ek in H. cbn in H. apply eqb_prop in H. exact H.
-  - intros H. apply andb_true_iff in H. destruct H as [H1 H2]. split.
-    + rewrite forallb_forall in H1. intros f Hf E. specialize (H1 f Hf). apply negb_true_iff in H1.
-      apply N.eqb_neq in H1. contradiction.
-    + apply outputs_owned_refl. exact H2.
-  - intros H. apply andb_true_iff in H. destruct H as [H1 H2]. split.
-    + rewrite forallb_forall in H1. intros s Hs. specialize (H1 s Hs). apply negb_true_iff in H1. exact H1.
-    + apply no_edge_into_refl. exact H2.
-  - intros H. apply andb_true_iff in H. destruct H as [H1 H2]. split.
-    + apply outputs_owned_refl. exact H1.
-    + intros -> s Hs Hm. cbn [negb orb] in H2. rewrite forallb_forall in H2. specialize (H2 s Hs).
-      rewrite Hm in H2. cbn in H2. exact H2.
-Qed.
-
-Lemma run_ok_refl l : forall g, run_ok_b g l = true -> run_ok g l.
-Proof.
-  induction l as [|p r IH]; intros g H; [exact I|].
-  cbn [run_ok_b run_ok] in *. apply andb_true_iff in H. destruct H as [H1 H2].
-  split; [apply prim_ok_refl; exact H1|]. intros g1 E. rewrite E in H2. apply IH. exact H2.
-Qed.
-
-Theorem prims_preserve_FlagInv_b l g g' :
-  WF g -> FlagInv g -> run_ok_b g l = true -> run_prims g l = Some g' -> WF g' /\ FlagInv g'.
-Proof. intros Hwf HF Hok E. eapply prims_preserve_FlagInv; try eassumption. apply run_ok_refl. exact Hok. Qed.
